@@ -261,6 +261,27 @@ Fixpoint okx (D : name -> Prop) (e : oexpr) : Prop :=
   | _ => True
   end.
 
+(* the rule/atomic wrappers around a rule body (vm_rule_body) only pass a failure on *)
+Inductive wraps (b : prog) : prog -> Prop :=
+| w_base : wraps b b
+| w_rule id q : wraps b q -> wraps b (PRule id q)
+| w_atomic at0 q : wraps b q -> wraps b (PAtomic at0 q).
+
+Lemma wraps_clean b n :
+  (forall f1 s1 a1 x1, f1 <= n -> wf s1 -> Inv (stack s1) a1 -> exec cfg E f1 b s1 = RErr x1 -> cache (stack x1) = cache (stack s1)) ->
+  forall q, wraps b q -> forall f1 s1 a1 x1, f1 <= n -> wf s1 -> Inv (stack s1) a1 -> exec cfg E f1 q s1 = RErr x1 -> cache (stack x1) = cache (stack s1).
+Proof.
+  intros Body q Wq. induction Wq as [|id q Wq IHq|at0 q Wq IHq]; intros f1 s1 a1 x1 L1 W1 I1 H1.
+  - eapply Body; eauto.
+  - destruct f1 as [|f2]; [discriminate|]. destruct (prule_err _ _ _ _ _ H1 W1) as [->|(s2 & s3 & X & S2 & W2 & S3)]; [reflexivity|].
+    rewrite S3, <- S2. apply (IHq f2 s2 a1 s3); [lia|exact W2|now rewrite S2|exact X].
+  - destruct f1 as [|f2]; [discriminate|]. destruct (patomic_err _ _ _ _ _ H1 W1) as [->|(s2 & s3 & X & S2 & W2 & S3)]; [reflexivity|].
+    rewrite S3, <- S2. apply (IHq f2 s2 a1 s3); [lia|exact W2|now rewrite S2|exact X].
+Qed.
+
+Lemma vm_rule_body_wraps r : wraps (vme (oexpr_of r)) (vm_rule_body RG uranges r).
+Proof. unfold vm_rule_body. destruct (is_special_name (oname r)), (oty r); repeat constructor. Qed.
+
 Variable D : name -> Prop.
 Hypothesis DC : forall r, In r RG -> D (oname r) -> okx D (oexpr_of r).
 
@@ -285,24 +306,8 @@ Proof.
       * destruct (orule_id_nth _ HR) as (r & Nth & Nm). cbn [exec] in H. unfold vm_env in H. rewrite Nth in H. cbn [option_map] in H.
         assert (Hin : In r RG) by (eapply nth_error_In; eauto).
         assert (OB : okx D (oexpr_of r)) by (apply DC; auto; now rewrite Nm).
-        assert (Body : forall f1 s1 a1 x1, f1 <= n -> wf s1 -> Inv (stack s1) a1 -> exec cfg E f1 (vme (oexpr_of r)) s1 = RErr x1 -> cache (stack x1) = cache (stack s1))
-          by (intros; eapply IH; eauto).
-        (* the wrappers of vm_rule_body *)
-        assert (Wrap1 : forall f1 id s1 a1 x1, S f1 <= n -> wf s1 -> Inv (stack s1) a1 ->
-                  exec cfg E (S f1) (PRule id (vme (oexpr_of r))) s1 = RErr x1 -> cache (stack x1) = cache (stack s1)).
-        { intros f1 id s1 a1 x1 L1 W1 I1 H1. destruct (prule_err _ _ _ _ _ H1 W1) as [->|(s2 & s3 & X & S2 & W2 & S3)]; [reflexivity|].
-          rewrite S3, <- S2. eapply Body; eauto; [lia|now rewrite S2]. }
-        assert (Wrap2 : forall f1 at0 s1 a1 x1, S f1 <= n -> wf s1 -> Inv (stack s1) a1 ->
-                  exec cfg E (S f1) (PAtomic at0 (vme (oexpr_of r))) s1 = RErr x1 -> cache (stack x1) = cache (stack s1)).
-        { intros f1 at0 s1 a1 x1 L1 W1 I1 H1. destruct (patomic_err _ _ _ _ _ H1 W1) as [->|(s2 & s3 & X & S2 & W2 & S3)]; [reflexivity|].
-          rewrite S3, <- S2. eapply Body; eauto; [lia|now rewrite S2]. }
-        unfold vm_rule_body in H.
-        destruct (is_special_name (oname r)), (oty r); try (destruct fuel as [|f1]; [discriminate|]);
-          try (eapply Wrap1; eauto; lia); try (eapply Wrap2; eauto; lia); try (eapply Body; eauto; lia).
-        all: try (destruct (prule_err _ _ _ _ _ H W) as [->|(s2 & s3 & X & S2 & W2 & S3)]; [reflexivity|];
-                  rewrite S3, <- S2; destruct f1 as [|f2]; [discriminate|]; eapply Wrap2; eauto; [lia|now rewrite S2]).
-        all: try (destruct (patomic_err _ _ _ _ _ H W) as [->|(s2 & s3 & X & S2 & W2 & S3)]; [reflexivity|];
-                  rewrite S3, <- S2; destruct f1 as [|f2]; [discriminate|]; eapply Wrap1; eauto; [lia|now rewrite S2]).
+        apply (wraps_clean (vme (oexpr_of r)) n (fun f1 s1 a1 x1 L1 W1 I1 H1 => IH f1 L1 (oexpr_of r) s1 a1 x1 OB W1 I1 H1)
+                           _ (vm_rule_body_wraps r) fuel s a x Hf W I H).
       * destruct (uranges n0); [refine (safe_clean _ _ _ _ _ _ W I H); reflexivity|].
         cbn [exec] in H. unfold vm_env in H. rewrite (proj2 (nth_error_None RG (S (List.length RG)))) in H by lia. discriminate.
   - (* OPosPred *) eapply lookahead_restores; eauto.
